@@ -27,17 +27,18 @@ CHECKS = {
                   'on every public edit entry point with CPython as oracle',
         ref='DESIGN.md section 4 C01'),
     'C02': dict(
-        category='exploration',
-        text='Bounded: after every successful edit of the sweep (self-replacement in three code forms, donors, '
-             'removal, slice windows, docstring and line-comment puts) every query of the property (loc, bloc, '
-             'pars in all three sharing modes, own source, parent/field links, root, sibling and child navigation, '
-             'view lengths, predicates, docstring and line-comment lookup) is evaluated on every node and must equal '
-             'the answer on FST(root.src); all queries are also evaluated on every node BEFORE the edit so that every '
-             'cache is populated (no stale answers). The deductive fragment for the cache/link primitives is not '
-             'registered in this revision.',
-        note='Bounded runtime contracts, fresh FST(root.src) as oracle, norm=True. Nothing is counted as proved.',
-        technique='bounded runtime contracts (query-by-query comparison with a fresh tree, cache pre-population); '
-                  'not a proof',
+        category='proof',
+        text='Proof of the cache discipline fragment: _touch empties the node cache; _touchall flushes every proper '
+             'ancestor for parent chains of ANY length (loop invariant) and self iff asked, and nothing else; FST.loc and '
+             'FST.bloc return a cached answer untouched and otherwise store exactly what they computed under their own '
+             'key (loc == CPython extent through b2c); FST.pars selects cache slot parsT/parsF/parsN by its sharing mode '
+             'and answers only from that slot; the byte-coordinate accessors are c2b of loc. "No stale answer after any '
+             'edit" itself is bounded: after every successful edit of the sweep every query on every node must equal '
+             'the answer on FST(root.src), with every cache populated before the edit.',
+        note=TB + BND + ' Undecided remainder: flush-on-write at the ~60 position-writing sites, link maintenance, the '
+             'children worklist of _touchall.',
+        technique='contract-based deductive verification of cache/flush primitives (symbolic heap, loop invariant, z3) '
+                  '+ bounded runtime contracts (query-by-query comparison with a fresh tree)',
         ref='DESIGN.md section 4 C02'),
     'C04': dict(
         category='proof',
